@@ -17,6 +17,7 @@ import queue as _queue
 import sys
 import threading
 import mmap as _mmap
+import multiprocessing as _mp
 import types
 import multiprocessing.process as _mpp
 
@@ -215,6 +216,7 @@ class World:
         self.publication_functions = set()  # writes inside these functions happen before the target object is started
         self.fork_functions = set()  # harness functions that copy a parent's object state into a child's object BEFORE the child starts
         self.files = {}  # path -> prims.SimFile (builtin open())
+        self.storage_files = None  # prims.SimStorageFiles: paths/handles are file numbers (C14)
         self.changed = False
         self.pass_no = 0
         self.thread_of_obj = {}
@@ -387,6 +389,7 @@ def clone_frame(f, memo):
     n.ctor_of = f.ctor_of
     n.resumer = f.resumer
     n.discard_ret = f.discard_ret
+    n._kwnames = getattr(f, "_kwnames", ())
     return n
 
 
@@ -498,6 +501,7 @@ class Explorer:
             n.code, n.globs, n.ins, n.off2idx, n.table = f.code, f.globs, f.ins, f.off2idx, f.table
             n.ip, n.cur = f.ip, f.cur
             n.ret_override, n.ctor_of, n.resumer, n.discard_ret = f.ret_override, f.ctor_of, f.resumer, f.discard_ret
+            n._kwnames = getattr(f, "_kwnames", ())
             n.locals = {a: gv(b, "%s.%s" % (prefix, a)) for a, b in live_items(f)}
             n.stack = [gv(x, "%s.s%d" % (prefix, j)) for j, x in enumerate(f.stack)]
             n.gen = gv(f.gen, prefix + ".self") if f.gen is not None else None
@@ -586,7 +590,18 @@ class Explorer:
             n.label = label or "%s@%s:%s" % (f.code.co_qualname, ins.positions.lineno if ins and ins.positions else "?", ins.opname if ins else "")
             th.nodes[key] = n
             th.node_list.append(n)
+            if _os.environ.get("VM_NODES") and len(th.node_list) % 100 == 0:
+                import collections
+                print("NODES", th.name, len(th.node_list), collections.Counter(x.label for x in th.node_list).most_common(4), flush=True)
             if len(th.node_list) > 3000:
+                if _TRACE:
+                    import collections
+                    cnt = collections.Counter(x.label for x in th.node_list)
+                    print("NODE LABELS", cnt.most_common(6))
+                    lab = cnt.most_common(1)[0][0]
+                    same = [x for x in th.node_list if x.label == lab][:3]
+                    for x in same:
+                        print("KEY", repr(x.key)[:3000])
                 raise VMError("CFA of thread %s exceeds 3000 nodes" % th.name)
         return n, upd
 
@@ -735,6 +750,11 @@ class Explorer:
             return self.instantiate(ts, pst, func, args, kwargs, th)
         # ---- primitives
         tgt = func
+        if isinstance(tgt, BoundMethod) and isinstance(tgt.func, _HandleMethod):
+            if tgt.func.name == "identity":
+                caller.stack.append(tgt.self_obj)
+                return None
+            return self.storage_file_op(ts, pst, th, tgt.func.name, tgt.self_obj, args, kwargs)
         if isinstance(tgt, (types.MethodType, BoundMethod)):
             so = tgt.__self__ if isinstance(tgt, types.MethodType) else tgt.self_obj
             fn = tgt.__func__ if isinstance(tgt, types.MethodType) else tgt.func
@@ -751,6 +771,8 @@ class Explorer:
         if isinstance(tgt, _LineIdent):
             caller.stack.append(tgt.v)
             return None
+        if isinstance(tgt, _HandleMethod):
+            return self.storage_file_op(ts, pst, th, tgt.name, tgt.v, args, kwargs)
         # ---- python-level functions: inline
         f = self.make_call_frame(func, list(args), dict(kwargs), caller)
         if f is not None:
@@ -828,10 +850,15 @@ class Explorer:
         if isinstance(obj, SOpt) and isinstance(obj.payload, prims.SimObj):
             pst.set_flag("attributeerror-None-has-no-attribute", obj.is_none)
             obj = obj.payload
+        if isinstance(obj, SOpt) and is_symint(obj.payload) and w.storage_files is not None:
+            pst.set_flag("attributeerror-None-has-no-attribute", obj.is_none)
+            obj = obj.payload
         if isinstance(obj, SOpt):
             raise VMError("attribute %s of an optional value" % name)
+        if is_symint(obj) and name in ("tell", "seek", "readline", "close") and w.storage_files is not None:
+            return BoundMethod(_HANDLE_FUNCS[name], obj)
         if is_symint(obj) and name in ("rstrip", "decode"):
-            return _LineIdent(obj)  # a line is represented by its id: decoding / stripping the newline keep the id
+            return BoundMethod(_LINE_IDENT, obj)  # a line is represented by its id: decoding / stripping the newline keep the id
         if isinstance(obj, (SList, SDict)):
             return _ContainerMethod(obj, name)
         if isinstance(obj, prims.SimObj):
@@ -909,6 +936,9 @@ class Explorer:
         if isinstance(value, GenObj) or (isinstance(sh, tuple) and sh and sh[0] in ("gen", "fn", "bm")):
             raise VMError("storing generator/function objects in attributes is not modelled (%s)" % ci.name)
         new_shape = join_shape(ci.shape, sh)
+        if ci.shape == "unset" and obj.__dict__.get(name, NULL) is None and sh != ("c", "NoneType", None):
+            # the attribute is None on the real object when the encoded code starts: the cell is Optional from the start
+            new_shape = join_shape(("c", "NoneType", None), sh)
         if new_shape != ci.shape:
             ci.shape = new_shape
             w.changed = True
@@ -1052,6 +1082,8 @@ class Explorer:
             return self.queue_op(ts, pst, th, obj, name, args, kwargs)
         if isinstance(obj, (prims.SimFile, prims.SimMmap)):
             return self.file_op(ts, pst, th, obj, name, args, kwargs, announced=True)
+        if isinstance(obj, prims.SimManagerList):
+            return self.mlist_op(ts, pst, th, obj, name, args, announced=True)
         if isinstance(obj, prims.SimEvent):
             v = "%s.flag:b" % obj.name
             w.declare(v, "b", obj.init)
@@ -1182,6 +1214,156 @@ class Explorer:
             raise VMError("file.%s not modelled" % name)
         return None
 
+    def mlist_op(self, ts, pst, th, L, name, args, announced=False):
+        """Manager().list() proxy: each call is one atomic visible step on the shared list."""
+        w = self.w
+        st = ts.frames[-1].stack
+        if L.elem is None or L.cap is None:
+            raise VMError("manager list %s has no declared slot shape/capacity" % L.name)
+        if not announced:
+            self.visible(ts, pst, "%s.%s" % (L.name, name), prim=L)
+        ln_name = "%s.len:i" % L.name
+        w.declare(ln_name, "i", len(L.init))
+        proto = default_of(L.elem)
+        for j in range(L.cap):
+            out0 = []
+            flatten(coerce(L.init[j], L.elem) if j < len(L.init) else proto, L.elem, "%s.%d" % (L.name, j), out0)
+            for n0, s0, e0 in out0:
+                e0 = z3.simplify(e0)
+                w.declare(n0, s0, (e0.as_signed_long() if z3.is_bv_value(e0) else z3.is_true(e0)))
+        ln = pst.read(ln_name, "i")
+
+        def slot(j):
+            return unflatten(proto, L.elem, "%s.%d" % (L.name, j), pst.read)
+
+        def wslot(j, val):
+            out = []
+            flatten(val, L.elem, "%s.%d" % (L.name, j), out)
+            for n, s, e in out:
+                pst.write(n, s, e)
+
+        if name == "len":
+            st.append(ln)
+        elif name == "getitem":
+            k = as_bv(args[0])
+            r = slot(L.cap - 1)
+            for j in range(L.cap - 2, -1, -1):
+                r = ite(k == I(j), slot(j), r)
+            pst.set_flag("indexerror-manager-list", z3.Or(k < I(0), k >= ln))
+            st.append(r)
+        elif name == "setitem":
+            k = as_bv(args[0])
+            val = coerce(args[1], L.elem)
+            for j in range(L.cap):
+                wslot(j, ite(k == I(j), val, slot(j)))
+            pst.set_flag("indexerror-manager-list", z3.Or(k < I(0), k >= ln))
+            pass
+        elif name == "setslice":
+            sl, val = args
+            if not (sl.start is None and sl.stop is None and sl.step is None and isinstance(val, SList) and isinstance(val.length, int) and val.length == 0):
+                raise VMError("only lst[:] = [] is modelled on manager lists")
+            pst.write(ln_name, "i", I(0))
+        elif name == "append":
+            val = coerce(args[0], L.elem)
+            for j in range(L.cap):
+                wslot(j, ite(ln == I(j), val, slot(j)))
+            pst.write(ln_name, "i", ln + I(1))
+            pst.set_flag("bound_exceeded", ln >= I(L.cap))
+            st.append(None)
+        elif name == "extend":
+            src = args[0]
+            if not (isinstance(src, SList) and (src.elem == ("c", "NoneType", None) or (isinstance(src.length, int) and src.length == 0))):
+                raise VMError("manager list extend() is modelled for lists of None only")
+            n = as_bv(src.length)
+            none = coerce(None, L.elem)
+            for j in range(L.cap):
+                wslot(j, ite(z3.And(ln <= I(j), I(j) < ln + n), none, slot(j)))
+            pst.write(ln_name, "i", ln + n)
+            pst.set_flag("bound_exceeded", ln + n > I(L.cap))
+            st.append(None)
+        else:
+            raise VMError("manager list .%s not modelled" % name)
+        return None
+
+    def storage_file_op(self, ts, pst, th, name, h, args, kwargs):
+        """prims.SimStorageFiles: file number k (symbolic) selects the file; lines are integer tags; offsets are line numbers."""
+        w = self.w
+        D = w.storage_files
+        st = ts.frames[-1].stack
+        me = w.thread_order.index(th.name)
+        self.visible(ts, pst, "%s.%s" % (D.name, name), prim=D)
+        k = as_bv(h)
+        NF, ML = D.nfiles, D.maxlines
+        for f in range(NF):
+            w.declare("%s.n.%d:i" % (D.name, f), "i", 0)
+            w.declare("%s.rp.%d.%d:i" % (D.name, me, f), "i", 0)
+            for j in range(ML):
+                w.declare("%s.c.%d.%d:i" % (D.name, f, j), "i", 0)
+        pst.set_flag("storage-file-number-out-of-range", z3.Or(k < I(0), k >= I(NF)))
+
+        def nvar(f):
+            return "%s.n.%d:i" % (D.name, f)
+
+        def rvar(f):
+            return "%s.rp.%d.%d:i" % (D.name, me, f)
+
+        def sel(fn):
+            r = fn(NF - 1)
+            for f in range(NF - 2, -1, -1):
+                r = z3.If(k == I(f), fn(f), r)
+            return r
+
+        if name == "open":
+            mode = args[0] if args else kwargs.get("mode", "r")
+            if mode == "w":
+                for f in range(NF):
+                    pst.write(nvar(f), "i", z3.If(k == I(f), I(0), pst.read(nvar(f), "i")))
+            elif mode == "r":
+                for f in range(NF):
+                    pst.write(rvar(f), "i", z3.If(k == I(f), I(0), pst.read(rvar(f), "i")))
+            elif mode != "a":
+                raise VMError("open mode %r not modelled" % (mode,))
+            st.append(h)
+        elif name == "tell":
+            st.append(sel(lambda f: pst.read(nvar(f), "i")))
+        elif name == "print":
+            if not kwargs.get("flush"):
+                raise VMError("print(..., file=f) without flush=True: buffered writes are not modelled")
+            data = as_bv(args[0])
+            for f in range(NF):
+                n = pst.read(nvar(f), "i")
+                for j in range(ML):
+                    cv = "%s.c.%d.%d:i" % (D.name, f, j)
+                    pst.write(cv, "i", z3.If(z3.And(k == I(f), n == I(j)), data, pst.read(cv, "i")))
+                pst.write(nvar(f), "i", z3.If(k == I(f), n + I(1), n))
+            pst.set_flag("bound_exceeded", sel(lambda f: pst.read(nvar(f), "i")) >= I(ML))
+            st.append(None)
+        elif name == "seek":
+            off = as_bv(args[0])
+            for f in range(NF):
+                pst.write(rvar(f), "i", z3.If(k == I(f), off, pst.read(rvar(f), "i")))
+            st.append(off)
+        elif name == "readline":
+            pos = sel(lambda f: pst.read(rvar(f), "i"))
+            n = sel(lambda f: pst.read(nvar(f), "i"))
+
+            def line_of(f):
+                r = I(-1)
+                for j in range(ML - 1, -1, -1):
+                    r = z3.If(pos == I(j), pst.read("%s.c.%d.%d:i" % (D.name, f, j), "i"), r)
+                return r
+
+            val = z3.If(z3.And(pos >= I(0), pos < n), sel(line_of), I(-1))  # -1: nothing there yet (empty string)
+            for f in range(NF):
+                cur = pst.read(rvar(f), "i")
+                pst.write(rvar(f), "i", z3.If(z3.And(k == I(f), pos < n), cur + I(1), cur))
+            st.append(val)
+        elif name == "close":
+            st.append(None)
+        else:
+            raise VMError("storage file .%s not modelled" % name)
+        return None
+
     def queue_op(self, ts, pst, th, q, name, args, kwargs):
         w = self.w
         if q.elem is None or q.cap is None:
@@ -1275,6 +1457,26 @@ class Explorer:
                     for x in src:
                         self.list_append(pst, obj, x)
                     st.append(None)
+                    self.writeback(ts, pst, self.w.threads[pst.thread], obj)
+                    return None
+                if isinstance(src, SList) and src.elem == ("c", "NoneType", None):
+                    # extend by n Nones (n symbolic)
+                    if obj.elem is None:
+                        obj.elem = src.elem
+                        obj.slots = [None] * obj.cap
+                    else:
+                        j = join_shape(obj.elem, src.elem)
+                        if j != obj.elem:
+                            obj.slots = [coerce(x, j) for x in obj.slots] + [default_of(j)] * (obj.cap - len(obj.slots))
+                            obj.elem = j
+                    ln, n = as_bv(obj.length), as_bv(src.length)
+                    none = coerce(None, obj.elem) if obj.elem != ("c", "NoneType", None) else None
+                    if none is not None:
+                        obj.slots = [ite(z3.And(ln <= I(j), I(j) < ln + n), none, obj.slots[j]) for j in range(obj.cap)]
+                    pst.set_flag("bound_exceeded", ln + n > I(obj.cap))
+                    obj.length = z3.simplify(ln + n)
+                    st.append(None)
+                    self.writeback(ts, pst, self.w.threads[pst.thread], obj)
                     return None
         raise VMError("method %s of %s not modelled" % (name, type(obj).__name__))
 
@@ -1316,9 +1518,12 @@ class Explorer:
             if idx >= lst.cap or idx >= len(lst.slots):
                 return default_of(lst.elem)  # callers guard the access with idx < len
             return lst.slots[idx]
-        r = lst.slots[lst.cap - 1]
+        if lst.elem is None or lst.elem == ("c", "NoneType", None):
+            return None  # a list that (so far) only ever holds None
+        slots = list(lst.slots) + [default_of(lst.elem)] * (lst.cap - len(lst.slots))
+        r = slots[lst.cap - 1]
         for j in range(lst.cap - 2, -1, -1):
-            r = ite(idx == I(j), lst.slots[j], r)
+            r = ite(idx == I(j), slots[j], r)
         return r
 
     def builtin_call(self, ts, pst, th, func, args, kwargs):
@@ -1332,6 +1537,8 @@ class Explorer:
                 for p in a.present:
                     n = n + z3.If(as_bool(p), I(1), I(0))
                 st.append(z3.simplify(n))
+            elif isinstance(a, prims.SimManagerList):
+                return self.mlist_op(ts, pst, th, a, "len", [])
             elif isinstance(a, (list, tuple, str, dict)):
                 st.append(CInt(len(a)))
             elif hasattr(type(a), "__len__") and isinstance(type(a).__len__, types.FunctionType) and self.w.is_inline(type(a).__len__):
@@ -1365,11 +1572,22 @@ class Explorer:
                 st.append(isinstance(a, t))
             return None
         if func is print:
+            fl = kwargs.get("file")
+            if self.w.storage_files is not None and isinstance(fl, SOpt) and is_symint(fl.payload):
+                pst.set_flag("attributeerror-None-has-no-attribute", fl.is_none)
+                fl = fl.payload
+            if self.w.storage_files is not None and is_symint(fl):
+                return self.storage_file_op(ts, pst, th, "print", fl, args, kwargs)
             st.append(None)
+            return None
+        if func is _mp.parent_process:
+            st.append(None)  # the modelled processes are plain fork() children: multiprocessing's bookkeeping knows nothing about them
             return None
         if func is _os.getpid:
             st.append(self.w.thread_order.index(th.name))  # one process per modelled thread of control
             return None
+        if func is open and self.w.storage_files is not None and args and is_symint(args[0]):
+            return self.storage_file_op(ts, pst, th, "open", args[0], args[1:], kwargs)
         if func is open:
             fobj = self.w.files.get(args[0]) if args and isinstance(args[0], str) else None
             if fobj is None:
@@ -1379,6 +1597,11 @@ class Explorer:
             st.append(args[0])
             return None
         if func is str:
+            if isinstance(args[0], SOpt) and self.w.storage_files is not None:
+                args = [self.unopt(pst, args[0])]
+            if is_symint(args[0]) and self.w.storage_files is not None:
+                st.append(args[0])  # a storage file path is represented by the file number it is built from
+                return None
             st.append(str(args[0]) if not is_z3(args[0]) else "<sym>")
             return None
         if func is sorted:
@@ -1523,7 +1746,7 @@ class Explorer:
                 f.gen.done = True
                 f.gen.frame = None
         pst.write("crashed.%s:b" % th.name, "b", True)
-        pst.labels.append("uncaught %s" % type(exc).__name__)
+        pst.labels.append("uncaught %s%s" % (type(exc).__name__, ("(%s)" % (str(exc)[:80].replace(" ", "_"))) if _TRACE else ""))
         if th.obj is None:
             pst.set_flag("uncaught-exception-in-scenario", True)
         raise PathEnd()
@@ -1748,6 +1971,16 @@ class Explorer:
         st.append(self.binop(pst, sym, a, b))
 
     def binop(self, pst, sym, a, b):
+        if sym == "*" and isinstance(a, SList) and a.elem == ("c", "NoneType", None) and (is_symint(b) or isinstance(b, int)):
+            # [None, ...] * n with a symbolic n: a list of len*n Nones (negative n gives the empty list); the length of the
+            # literal may itself have been generalised at a cut point between BUILD_LIST and the multiplication
+            cap = self.w.default_cap
+            tot = as_bv(a.length) * as_bv(b) if is_z3(a.length) else I(a.length) * as_bv(b) if a.length != 1 else as_bv(b)
+            n = z3.If(as_bv(b) < I(0), I(0), tot)
+            pst.set_flag("bound_exceeded", z3.Or(as_bv(b) > I(cap), n > I(cap)))
+            return SList(cap, n, [None] * cap, ("c", "NoneType", None))
+        if sym == "+" and self.w.storage_files is not None and ((isinstance(a, str) and is_symint(b)) or (isinstance(b, str) and is_symint(a))):
+            return b if isinstance(a, str) else a  # path built from a file number: represented by the number
         if not _has_sym(a) and not _has_sym(b) and not isinstance(a, (SList, SDict)) and not isinstance(b, (SList, SDict)):
             import operator
             ops = {"+": operator.add, "-": operator.sub, "*": operator.mul, "//": operator.floordiv, "%": operator.mod,
@@ -1906,6 +2139,13 @@ class Explorer:
         if isinstance(c, SList):
             st.append(self.list_get(pst, c, k))
             return None
+        if isinstance(c, prims.SimManagerList):
+            saved = list(st) + [c, k]
+            try:
+                return self.mlist_op(ts, pst, th, c, "getitem", [k])
+            except CutHere:
+                f.stack[:] = saved
+                raise
         if isinstance(c, tuple) and isinstance(k, int):
             st.append(c[k])
             return None
@@ -1928,21 +2168,23 @@ class Explorer:
             st.append(r)
             return None
         if isinstance(c, list) and is_symint(k) and not _has_sym(c):
+            if not c:
+                return self.do_raise(ts, pst, th, IndexError("list index out of range"))
             alts = []
             for j in range(len(c)):
                 def prep(t, p, j=j):
                     t.frames[-1].stack[-1] = j
                 alts.append((k == I(j), prep))
             raise Alternatives(alts)
+        gi = getattr(type(c), "__getitem__", None)
+        if isinstance(gi, types.FunctionType) and self.w.is_inline(gi) and hasattr(c, "__dict__"):
+            return self.push_call(ts, pst, types.MethodType(gi, c), [k], {}, th)
         if not _has_sym(c) and not _has_sym(k):
             try:
                 st.append(c[k])
             except Exception as e:  # noqa
                 return self.do_raise(ts, pst, th, e)
             return None
-        gi = getattr(type(c), "__getitem__", None)
-        if isinstance(gi, types.FunctionType) and self.w.is_inline(gi) and hasattr(c, "__dict__"):
-            return self.push_call(ts, pst, types.MethodType(gi, c), [k], {}, th)
         raise VMError("subscript %r[%r]" % (c, k))
 
     def op_STORE_SUBSCR(self, ts, pst, th, f, ins, st):
@@ -1964,9 +2206,24 @@ class Explorer:
             return None
         if isinstance(c, SList):
             kk = as_bv(k)
+            sh = shape_of(v)
+            if c.elem is None or c.elem != sh:
+                j = join_shape(c.elem, sh)
+                if j != c.elem:
+                    c.slots = [coerce(x, j) for x in c.slots] + [default_of(j)] * (c.cap - len(c.slots))
+                    c.elem = j
             c.slots = [ite(kk == I(j), coerce(v, c.elem), c.slots[j]) for j in range(c.cap)]
             self.writeback(ts, pst, th, c)
             return None
+        if isinstance(c, prims.SimManagerList):
+            saved = list(st) + [v, c, k]
+            try:
+                if isinstance(k, slice):
+                    return self.mlist_op(ts, pst, th, c, "setslice", [k, v])
+                return self.mlist_op(ts, pst, th, c, "setitem", [k, v])
+            except CutHere:
+                f.stack[:] = saved
+                raise
         if isinstance(c, list) and isinstance(k, int) and not _has_sym(v):
             self.write_reflist(ts, pst, th, c, k, v)
             return None
@@ -1978,6 +2235,13 @@ class Explorer:
                     t.frames[-1].stack[-1] = j
                 alts.append((k == I(j), prep))
             raise Alternatives(alts)
+        si = getattr(type(c), "__setitem__", None)
+        if isinstance(si, types.FunctionType) and self.w.is_inline(si) and hasattr(c, "__dict__"):
+            fr = self.make_call_frame(types.MethodType(si, c), [k, v], {}, f)
+            if fr is not None:
+                fr.discard_ret = True
+                ts.frames.append(fr)
+                return None
         raise VMError("item assignment on %r" % (c,))
 
     def op_DELETE_SUBSCR(self, ts, pst, th, f, ins, st):
@@ -2202,8 +2466,9 @@ class Explorer:
         del st[len(st) - argc - 2:]
         try:
             return self.push_call(ts, pst, func, allargs, kwargs, th)
-        except CutHere:
+        except (CutHere, Alternatives):
             f.stack[:] = saved
+            f._kwnames = kwnames  # the instruction is executed again from the new node: it needs its KW_NAMES again
             raise
 
     def op_MAKE_FUNCTION(self, ts, pst, th, f, ins, st):
@@ -2324,6 +2589,18 @@ class _ContainerMethod:
     def __init__(self, obj, name):
         self.obj = obj
         self.name = name
+
+
+class _HandleMethod:
+    """method of a value that is represented by an integer (storage file handle, line id): one constant object per name,
+    bound to the integer with values.BoundMethod (which the VM can keep on a stack across cut points)"""
+
+    def __init__(self, name):
+        self.name = name
+
+
+_HANDLE_FUNCS = {n: _HandleMethod(n) for n in ("tell", "seek", "readline", "close")}
+_LINE_IDENT = _HandleMethod("identity")
 
 
 class _LineIdent:
